@@ -131,6 +131,49 @@ def parse_sweep(tier, seed=0):
                 msg = f"natural_sort_key({k!r}) raised {type(e).__name__}: {e}"
         if msg and len(fails) < 16:
             fails.append(rtc.Failure("key_split", {"key": repr(k)}, "ensures", "C18-total-with-documented-shape", msg))
+    # a unit given through default= (unit-less string or number): any letter case, like a unit written in the string
+    for u, mult in TIME_UNITS.items():
+        for cu in casings(u):
+            for arg in ("5", "0.25", 3, 1.5):
+                cases += 1
+                try:
+                    got = parse_timedelta(arg, default=cu)
+                    want = float(arg) * mult
+                    msg = None if abs(got - want) <= 1e-12 * abs(want) else f"parse_timedelta({arg!r}, default={cu!r}) = {got}, documented multiplier {mult} gives {want}"
+                except Exception as e:  # noqa
+                    msg = f"parse_timedelta({arg!r}, default={cu!r}) raised {type(e).__name__}: {str(e)[:80]}"
+                if msg and len(fails) < 12:
+                    fails.append(rtc.Failure("parse_timedelta", {"s": arg, "default": cu}, "ensures", "C18-units-any-case", msg))
+    # natural sort: text and numbers alternate in the key ([str, int, str, ...]) whatever script the digits are in, so
+    # keys of different strings are always comparable and digit runs sort by value
+    digit_sets = ["0123456789", "٠١٢٣٤٥٦٧٨٩", "０１２３４５６７８９"]
+    names = []
+    for ds in digit_sets:
+        for n in (2, 9, 10, 100):
+            num = "".join(ds[int(ch)] for ch in str(n))
+            names += [f"f{num}", f"{num}", f"f{num}x", f"1{num}" if ds != digit_sets[0] else f"f{num}y"]
+    for nm in names:
+        cases += 1
+        try:
+            parts = natural_sort_key(nm)
+            ok = all(isinstance(p, str) for p in parts[0::2]) and all(isinstance(p, int) for p in parts[1::2])
+            msg = None if ok else f"natural_sort_key({nm!r}) = {parts!r}: text and numbers do not alternate"
+        except Exception as e:  # noqa
+            msg = f"natural_sort_key({nm!r}) raised {type(e).__name__}: {e}"
+        if msg and len(fails) < 16:
+            fails.append(rtc.Failure("key_split", {"key": repr(nm)}, "ensures", "C18-total-with-documented-shape", msg))
+    for ds in digit_sets:
+        cases += 1
+        group = ["f" + "".join(ds[int(ch)] for ch in str(n)) for n in (10, 2, 9, 100)]
+        try:
+            got = sorted(group, key=natural_sort_key)
+            want = ["f" + "".join(ds[int(ch)] for ch in str(n)) for n in (2, 9, 10, 100)]
+            msg = None if got == want else f"natural sort of {group!r} gives {got!r}, by value it is {want!r}"
+            sorted(names, key=natural_sort_key)
+        except Exception as e:  # noqa
+            msg = f"sorting with natural_sort_key raised {type(e).__name__}: {e}"
+        if msg and len(fails) < 16:
+            fails.append(rtc.Failure("key_split", {"key": repr(group)}, "ensures", "C18-total-with-documented-shape", msg))
     return {"function": "dask/utils.py:parse_bytes/parse_timedelta/key_split/natural_sort_key (real code)", "bounded": True,
             "bound": {"units": "every documented spelling x 5-7 letter casings x 15 numerals (decimal, leading-dot, signed and unsigned exponents) x optional space", "keys": len(keys)},
             "cases": cases, "distinct_nontrivial": cases, "failures_found": len(fails), "wall_s": round(time.time() - t0, 2),
